@@ -538,7 +538,16 @@ func (c *Ctx) CheckGate(rule string, fn *ssa.Function, fnName string, g Guard, s
 		inRegion := false
 		if g.Callee != nil {
 			for _, dc := range AllDeepCalls(fn, nil) {
-				if dc.Fr != nil && g.Callee(CalleeName(dc.Call)) {
+				if dc.Fr == nil || !g.Callee(CalleeName(dc.Call)) {
+					continue
+				}
+				skipped := false
+				for f := dc.Fr; f != nil; f = f.Parent {
+					if g.SkipHelper != nil && g.SkipHelper(f.Callee) {
+						skipped = true // a helper the rule says does not stand in for the check
+					}
+				}
+				if !skipped {
 					inRegion = true
 				}
 			}
